@@ -575,3 +575,41 @@ func StrConstOf(v ssa.Value) (string, bool) {
 	}
 	return constant.StringVal(k.Value), true
 }
+
+// ---------- loops ----------
+
+// Loops computes the natural loops of fn: for each back edge t->h (h dominates t) the set of blocks.
+func Loops(fn *ssa.Function) []map[*ssa.BasicBlock]bool {
+	var out []map[*ssa.BasicBlock]bool
+	for _, t := range fn.Blocks {
+		for _, h := range t.Succs {
+			if !h.Dominates(t) {
+				continue
+			}
+			loop := map[*ssa.BasicBlock]bool{h: true}
+			work := []*ssa.BasicBlock{t}
+			for len(work) > 0 {
+				b := work[len(work)-1]
+				work = work[:len(work)-1]
+				if loop[b] {
+					continue
+				}
+				loop[b] = true
+				work = append(work, b.Preds...)
+			}
+			out = append(out, loop)
+		}
+	}
+	return out
+}
+
+// InnermostLoop returns the smallest natural loop containing b (nil if none).
+func InnermostLoop(fn *ssa.Function, b *ssa.BasicBlock) map[*ssa.BasicBlock]bool {
+	var best map[*ssa.BasicBlock]bool
+	for _, l := range Loops(fn) {
+		if l[b] && (best == nil || len(l) < len(best)) {
+			best = l
+		}
+	}
+	return best
+}
